@@ -59,38 +59,42 @@ def updateParensNesting (cfg : Cfg) (increment : Bool) : Prog Unit := do
       | .macroEval f p => .macroEval f (p - 1)
       | m => m)
 
+/-- the operator selection of `lex_macro_eval_operator`: token type and number of extra chars besides the
+first; `r` is the remaining text (already read by the caller) -/
+def evalOperatorSel (cfg : Cfg) (c : Char) (r : List Char) : Prog (Option (TokenType × Nat)) := do
+  let nxt := nextOf r
+  if c == '*' then
+    if nxt == '*' then pure (some (TokenType.STAR2, 1)) else pure (some (TokenType.STAR, 0))
+  else if c == '(' then do
+    updateParensNesting cfg true
+    pure (some (TokenType.LPAREN, 0))
+  else if c == ')' then do
+    updateParensNesting cfg false
+    pure (some (TokenType.RPAREN, 0))
+  else if c == '|' then pure (some (TokenType.PIPE, 0))
+  else if c == '¬' || c == '^' || c == '~' then
+    if nxt == '=' then pure (some (TokenType.NE, 1)) else pure (some (TokenType.NOT, 0))
+  else if c == '+' then pure (some (TokenType.PLUS, 0))
+  else if c == '-' then pure (some (TokenType.MINUS, 0))
+  else if c == '<' then
+    if nxt == '=' then pure (some (TokenType.LE, 1)) else pure (some (TokenType.LT, 0))
+  else if c == '>' then
+    if nxt == '=' then pure (some (TokenType.GE, 1)) else pure (some (TokenType.GT, 0))
+  else if c == '=' then pure (some (TokenType.ASSIGN, 0))
+  else if c == '#' then pure (some (TokenType.HASH, 0))
+  else if isMnemonicStartChar c then
+    match isMacroEvalMnemonic r with
+    | (some ty, extra) => pure (some (ty, extra))
+    | (none, _) => pure none
+  else pure none
+
 /-- `lex_macro_eval_operator` -/
 def lexMacroEvalOperator (cfg : Cfg) (c : Char) : Prog Bool := do
   dbg cfg (do match (← mode) with
               | .macroEval _ _ => pure true
               | _ => pure false) "lex_macro_eval_operator: mode"
   let r ← rest
-  let nxt := nextOf r
-  let sel : Option (TokenType × Nat) ← (do
-    if c == '*' then
-      if nxt == '*' then pure (some (TokenType.STAR2, 1)) else pure (some (TokenType.STAR, 0))
-    else if c == '(' then do
-      updateParensNesting cfg true
-      pure (some (TokenType.LPAREN, 0))
-    else if c == ')' then do
-      updateParensNesting cfg false
-      pure (some (TokenType.RPAREN, 0))
-    else if c == '|' then pure (some (TokenType.PIPE, 0))
-    else if c == '¬' || c == '^' || c == '~' then
-      if nxt == '=' then pure (some (TokenType.NE, 1)) else pure (some (TokenType.NOT, 0))
-    else if c == '+' then pure (some (TokenType.PLUS, 0))
-    else if c == '-' then pure (some (TokenType.MINUS, 0))
-    else if c == '<' then
-      if nxt == '=' then pure (some (TokenType.LE, 1)) else pure (some (TokenType.LT, 0))
-    else if c == '>' then
-      if nxt == '=' then pure (some (TokenType.GE, 1)) else pure (some (TokenType.GT, 0))
-    else if c == '=' then pure (some (TokenType.ASSIGN, 0))
-    else if c == '#' then pure (some (TokenType.HASH, 0))
-    else if isMnemonicStartChar c then
-      match isMacroEvalMnemonic r with
-      | (some ty, extra) => pure (some (ty, extra))
-      | (none, _) => pure none
-    else pure none)
+  let sel ← evalOperatorSel cfg c r
   match sel with
   | none => pure false
   | some (ty, extra) =>
